@@ -11,7 +11,8 @@
 (* programs before the first note move to 0.  So at every moment t >= 0    *)
 (* the value in force for a controller is what was in force at t + start   *)
 (* before - in particular "no value yet" stays "no value yet" - and doing  *)
-(* it twice changes nothing more.                                          *)
+(* it twice changes nothing more.  The parts of one performance are        *)
+(* shifted by the first note of the whole performance (load_performance).  *)
 (***************************************************************************)
 EXTENDS Integers, Sequences, FiniteSets
 
@@ -33,6 +34,15 @@ NewControls(cs, start) ==
    IN (IF before /\ ~at THEN <<[t |-> 0, v |-> InForce(cs, start)]>> ELSE <<>>) \o Keep(cs, start)
 NewNotes(ns, start) == [k \in 1..Len(ns) |-> [id |-> ns[k].id, on |-> ns[k].on - start, off |-> ns[k].off - start]]
 NewPrograms(ps, start) == [k \in 1..Len(ps) |-> Max2(ps[k] - start, 0)]
+
+(* the parts of one performance stay together: all are shifted by the first note of the performance *)
+PerformanceStart(ps) == MinOf({StartOf(ps[k]) : k \in 1..Len(ps)})
+ShiftedTogether(ps) == [k \in 1..Len(ps) |-> NewNotes(ps[k], PerformanceStart(ps))]
+StayTogether(ps) ==
+   LET q == ShiftedTogether(ps) IN
+   /\ \A i, j \in 1..Len(ps) : \A a \in 1..Len(ps[i]), b \in 1..Len(ps[j]) : q[i][a].on - q[j][b].on = ps[i][a].on - ps[j][b].on
+   /\ \A i \in 1..Len(ps) : \A a \in 1..Len(ps[i]) : q[i][a].on >= 0 /\ q[i][a].off - q[i][a].on = ps[i][a].off - ps[i][a].on
+   /\ \E i \in 1..Len(ps) : StartOf(q[i]) = 0
 
 VARIABLES sc,      \* the part before: [notes, ctrls, progs]
           phase,   \* "start", "controls", "notes", "done"
